@@ -378,6 +378,14 @@ func roundJobs(w *world, hs, vs int, pfx string, core bool) []job {
 		}
 	}
 
+	{
+		// a consensus-valid block from the future, last on the peer's chain, through the checkpoint
+		// path: must be refused like AddBlocks refuses it (ErrFutureBlock), the peer reported
+		k := L - 1
+		add(true, &roundCase{name: "v2chain-future-block", tags: []string{"invalid-block:future-timestamp", "rpc:SendV2Blocks", "regime:v2-checkpoint"},
+			w: w, victim: main.Blocks[:vs], tie: true, mustBan: true,
+			view: bogusView(w, main, k, func(b *types.Block, cs consensus.State) { b.Timestamp = time.Now().Add(5 * time.Hour) }, 0, 0x73)})
+	}
 	return jobs
 }
 
